@@ -153,7 +153,7 @@ Definition ctor_default (k : str) : pyval :=
 
 (* binding of the call DATATYPES[base](pname=pname, **kwargs): a required parameter must be present, unknown keys
    need **kwds, a key "pname" collides with the explicit keyword *)
-Definition bind_ok (ty : str) (kw : list (str * pyval)) : bool :=
+Definition binds_ok (ty : str) (kw : list (str * pyval)) : bool :=
   match tbl_params ty with
   | None => false
   | Some ps =>
@@ -352,7 +352,7 @@ Fixpoint get_dt (fuel : nat) (pname : str) (j : pyval) {struct fuel} : res (opti
       match o with
       | None => Ok None
       | Some (PStr ty, kw) =>
-          if negb (bind_ok ty kw) then W
+          if negb (binds_ok ty kw) then W
           else
             match leaf_of pname ty kw with
             | Some r => some_xt r
